@@ -209,9 +209,6 @@ Inductive op :=
 | OpEnvStart                           (* Environment.__aenter__: flush _startup *)
 | OpStop (res : list Z).               (* StopSimulation leaves the environment scope *)
 
-Definition sched_env it p :=
-  if started p then push_now it p else set_started false (startup p ++ [it]) p.
-
 Definition exec_op (p : proto) (o : op) : proto :=
   match o with
   | OpPush t it => if client_item it && (now p <=? t) then push t it p else p
@@ -223,7 +220,9 @@ Definition exec_op (p : proto) (o : op) : proto :=
   | OpUnsub e w => upd_ev e (fun x => set_e_wait (remove1 w (e_wait x)) x) p
   | OpAddCb e cb => if e_proc (get_ev p e) then p else upd_ev e (add_e_cb cb) p
   | OpDefuse e => upd_ev e set_e_def p
-  | OpTimeout e d v => if (0 <=? d) && negb (closed p) then sched_env (ITmoStart e d v (now p)) p else p
+  | OpTimeout e d v =>
+      (* a Timeout created before the environment runs is outside the model *)
+      if (0 <=? d) && negb (closed p) && started p then push_now (ITmoStart e d v (now p)) p else p
   | OpIntPush q c =>
       let x := get_iq p q in
       if triggered p (q_ev x) then p
@@ -571,19 +570,18 @@ Fixpoint all_targets (sc : list action) : list target :=
   | [] => []
   end.
 
-Fixpoint set_leaves (t : target) (l : list event) : list event :=
+Fixpoint set_leaves (t : target) (l : list (list nat)) : list (list nat) :=
   match t with
-  | TCond e _ ch =>
-      upd e (fun x => mkEv (e_val x) (e_time x) (e_proc x) (e_cbs x) (e_added x) (e_def x) (e_wait x)
-                           (flat_map leaves ch))
-          (fold_left (fun l c => set_leaves c l) ch l)
+  | TCond e _ ch => upd e (fun _ => flat_map leaves ch) (fold_left (fun l c => set_leaves c l) ch l)
   | _ => l
   end.
 
+Definition ev_init (lv : list nat) : event := mkEv None 0 false [] [] false [] lv.
+
 Definition init_evs g : list event :=
-  fold_left (fun l t => set_leaves t l)
-            (flat_map (fun x => all_targets (snd x)) (g_procs g))
-            (repeat ev0 (g_nnodes g)).
+  map ev_init (fold_left (fun l t => set_leaves t l)
+                         (flat_map (fun x => all_targets (snd x)) (g_procs g))
+                         (repeat [] (g_nnodes g))).
 
 Fixpoint seqn (a n : nat) : list nat := match n with O => [] | S k => a :: seqn (S a) k end.
 
